@@ -297,14 +297,21 @@ def _get_schema_or_none(
 
 
 def _default(f_type: Type, f_value: Any, config_cls: Type[BaseConfig]) -> Any:
+    if f_value is None:
+        return None
+
+    # The value is wrapped into a required list field, so that the
+    # owner's omit_default / omit_none options (inherited through the
+    # config or its dialect) can't drop the key we are going to read,
+    # and the owner's aliases must not rename it
     @dataclass
     class CC(DataClassJSONMixin):
-        x: f_type = f_value  # type: ignore
+        x: list[f_type]  # type: ignore
 
         class Config(config_cls):  # type: ignore
-            pass
+            aliases: dict[str, str] = {}
 
-    return CC(f_value).to_dict()["x"]
+    return CC([f_value]).to_dict()["x"][0]
 
 
 Registry = InstanceSchemaCreatorRegistry()
